@@ -116,6 +116,24 @@ Section PrimEqFull.
            (sh_memo2 I J (to_nodal (snd cos_lat_grad_log_sp)))
            (map (to_nodal3 K) (s_tr s)).
 
+  (** *** the same nodal columns WITHOUT materialisation (ideal columns of the theorems): level entries
+      beyond the K levels are 0, exactly as the materialised arrays read outside their range *)
+  Definition lev_guard (K : nat) (x : nat -> F) : nat -> F := fun k => if Nat.ltb k K then x k else 0.
+  Definition dv_of (K : nat) (s : State) (k : nat) : Wi -> F :=
+    if Nat.ltb k K then unc (s_div s k) else fun _ => 0.
+  Definition X_ideal (K : nat) (s : State) (p : Wi) : NCol :=
+    let i := fst p in let j := snd p in
+    let gl := gradm (s_lnps s) in
+    mkNCol (lev_guard K (fun k => to_nodal (fst (uvm (s_vort s k) (s_div s k))) i j))
+           (lev_guard K (fun k => to_nodal (snd (uvm (s_vort s k) (s_div s k))) i j))
+           (lev_guard K (fun k => to_nodal (s_vort s k) i j))
+           (fun k => toN_c (dv_of K s k) p)
+           (lev_guard K (fun k => to_nodal (s_temp s k) i j))
+           (to_nodal (fst gl) i j) (to_nodal (snd gl) i j) (hsec2 g j) (coriolis j).
+  (** a state that differs from [s] in the temperature variation only *)
+  Definition with_stemp (s : State) (t : nat -> nat -> nat -> F) : State :=
+    mkState (s_vort s) (s_div s) t (s_lnps s) (s_tr s).
+
   (** *** explicit_terms, abstract assembly of the two fields ModalAssembly lacks *)
   (** log_surface_pressure: clip(to_modal(nodal_log_pressure_tendency)) *)
   Definition lnps_tendency_explicit_c (c : @PEcfg F) (X : Wi -> NCol) (w : Wi) : F :=
